@@ -5,6 +5,7 @@ import Driver.Node
 import Driver.Store
 import Driver.Group
 import Driver.Actor
+import Driver.Cluster
 /- `dcdriver`: reads a case file on stdin, answers every line with the model's output. -/
 namespace Driver
 
@@ -17,6 +18,7 @@ inductive Dom where
   | store (s : StoreDom.State)
   | group (s : GroupDom.State)
   | actor (s : ActorDom.State)
+  | cluster (s : ClusterDom.State)
 
 def newDom (name : String) (params : List String) : Dom :=
   match name with
@@ -27,6 +29,7 @@ def newDom (name : String) (params : List String) : Dom :=
   | "store" => .store {}
   | "group" => .group {}
   | "actor" => .actor {}
+  | "cluster" => .cluster {}
   | _ => .none
 
 def stepDom (d : Dom) (toks : List String) : Dom × String :=
@@ -39,6 +42,7 @@ def stepDom (d : Dom) (toks : List String) : Dom × String :=
   | .store s => let (s', o) := StoreDom.step s toks; (.store s', o)
   | .group s => let (s', o) := GroupDom.step s toks; (.group s', o)
   | .actor s => let (s', o) := ActorDom.step s toks; (.actor s', o)
+  | .cluster s => let (s', o) := ClusterDom.step s toks; (.cluster s', o)
 
 partial def loop (h : IO.FS.Stream) (out : IO.FS.Stream) (d : Dom) : IO Unit := do
   let line ← h.getLine
